@@ -30,12 +30,13 @@ import (
 )
 
 type node struct {
-	id       int
-	pos      string // static relative absolute
-	z        string // auto or integer
-	float    bool
-	ctx      string // "", opacity, transform, overflow
-	children []*node
+	id         int
+	pos        string // static relative absolute
+	z          string // auto or integer
+	float      bool
+	op, tr, ov bool // opacity < 1, transform, overflow hidden
+	outline    bool
+	children   []*node
 }
 
 func genTree(r *rng.R, budget *int, depth int) *node {
@@ -44,13 +45,42 @@ func genTree(r *rng.R, budget *int, depth int) *node {
 	n.pos = rng.Pick(r, "static", "static", "static", "relative", "relative", "absolute")
 	n.z = rng.Pick(r, "auto", "auto", "auto", "-2", "-1", "0", "1", "1", "2")
 	n.float = r.P(1, 6)
-	n.ctx = rng.Pick(r, "", "", "", "", "", "opacity", "transform", "overflow")
+	switch r.Intn(10) {
+	case 0:
+		n.op = true
+	case 1:
+		n.tr = true
+	case 2:
+		n.ov = true
+	case 3:
+		n.op, n.tr, n.ov = r.Bool(), r.Bool(), r.Bool()
+	}
+	n.outline = r.P(1, 2)
 	if depth < 3 {
 		for k := r.Range(0, 3); k > 0 && *budget > 0; k-- {
 			n.children = append(n.children, genTree(r, budget, depth+1))
 		}
 	}
 	return n
+}
+
+// genWide: 13-40 sibling stacking contexts with tied, unsorted z-index values (sort stability), some with a
+// child, under an optional common parent that is itself a context.
+func genWide(r *rng.R) []*node {
+	n := r.Range(13, 40)
+	zs := rng.Pick(r, []string{"1", "2"}, []string{"-1", "-2", "1", "2"}, []string{"-1", "-2"}, []string{"1", "2", "3", "0", "auto"}, []string{"-3", "-1", "2", "2", "5"})
+	var sibs []*node
+	for i := 0; i < n; i++ {
+		c := &node{pos: rng.Pick(r, "absolute", "relative"), z: zs[r.Intn(len(zs))], outline: r.P(1, 4)}
+		if r.P(1, 10) {
+			c.children = []*node{{pos: "static", z: "auto"}}
+		}
+		sibs = append(sibs, c)
+	}
+	if r.P(1, 3) {
+		return []*node{{pos: "relative", z: "0", op: r.P(1, 3), children: sibs}}
+	}
+	return sibs
 }
 
 func number(n *node, next *int) {
@@ -63,6 +93,7 @@ func number(n *node, next *int) {
 
 func bgCol(id int) string { return fmt.Sprintf("#%02x64c8", id) }
 func bdCol(id int) string { return fmt.Sprintf("#%02xc864", id) }
+func olCol(id int) string { return fmt.Sprintf("#%02x32fa", id) }
 
 func (n *node) html(b *strings.Builder) {
 	fmt.Fprintf(b, `<div id="b%d" style="background:%s;border:2px solid %s;margin:2px;min-height:6px;`, n.id, bgCol(n.id), bdCol(n.id))
@@ -78,13 +109,18 @@ func (n *node) html(b *strings.Builder) {
 	if n.float {
 		b.WriteString("float:left;width:50px;")
 	}
-	switch n.ctx {
-	case "opacity":
+	if n.op {
 		b.WriteString("opacity:0.5;")
-	case "transform":
-		b.WriteString("transform:translate(1px,2px);")
-	case "overflow":
+	}
+	if n.tr {
+		// a translation that identifies the box in the trace
+		fmt.Fprintf(b, "transform:translate(%dpx,0);", 100+n.id)
+	}
+	if n.ov {
 		b.WriteString("overflow:hidden;")
+	}
+	if n.outline {
+		fmt.Fprintf(b, "outline:1px solid %s;", olCol(n.id))
 	}
 	b.WriteString(`">`)
 	if len(n.children) == 0 {
@@ -120,11 +156,23 @@ func features(n *node, f map[string]bool) {
 	if n.float {
 		f["float"] = true
 	}
-	if n.ctx != "" {
-		f["ctx:"+n.ctx] = true
-		if n.z != "auto" && n.pos == "static" {
-			f["z-on-static-context"] = true
+	if n.op {
+		f["opacity"] = true
+	}
+	if n.tr {
+		f["transform"] = true
+	}
+	if n.ov {
+		f["overflow"] = true
+	}
+	if n.outline {
+		f["outline"] = true
+		if n.op || n.tr || n.ov {
+			f["outline-on-group-box"] = true
 		}
+	}
+	if (n.op || n.tr || n.ov) && n.z != "auto" && n.pos == "static" {
+		f["z-on-static-context"] = true
 	}
 	for _, c := range n.children {
 		features(c, f)
@@ -150,7 +198,6 @@ func abstract(b bo.Box) sx.X {
 	if zi := st.GetZIndex(); zi.String != "auto" {
 		z = sx.I(zi.Int)
 	}
-	ctx := st.GetOpacity() < 1 || len(st.GetTransform()) != 0 || st.GetOverflow() != "visible"
 	hasLines := false
 	if n := len(f.Children); n > 0 {
 		hasLines = bo.LineT.IsInstance(f.Children[n-1])
@@ -161,33 +208,138 @@ func abstract(b bo.Box) sx.X {
 			ch = append(ch, abstract(c))
 		}
 	}
-	return sx.L(sx.A("b"), sx.I(id), sx.B(st.GetPosition().String != "static"), z, sx.B(f.IsFloated()), sx.B(ctx),
+	return sx.L(sx.A("b"), sx.I(id), sx.B(st.GetPosition().String != "static"), z, sx.B(f.IsFloated()),
+		sx.B(st.GetOpacity() < 1), sx.B(len(st.GetTransform()) != 0), sx.B(st.GetOverflow() != "visible"),
 		sx.B(bo.BlockLevelT.IsInstance(b)), sx.B(bo.InlineBlockT.IsInstance(b) || bo.InlineFlexT.IsInstance(b)), sx.B(hasLines), sx.L(ch...))
 }
 
-// implOrder maps the fills and texts reaching the backend back to (box, layer) events.
+// implOrder maps what reaches the backend back to (box, layer) events:
+//   fills with a box's background / border / outline colour (the four sides of an outline count once), DrawText;
+//   NewGroup … DrawWithOpacity = group open / close of the box whose background is the first paint on the group;
+//   a Transform translate(100+id, 0) = transform open, closed by the Restore of its OnNewStack (or, on a group
+//   canvas, when the group is composited);
+//   a non-zero Clip that is the first call after its path in an OnNewStack and does not introduce a background
+//   colour (Save, SetColorRgba) = overflow clip of the box whose border was just painted, closed by the Restore.
 func implOrder(rec *render.Rec) []string {
 	var out []string
-	last := [3]int{-1, -1, -1}
-	for _, e := range rec.Events {
+	type frame struct {
+		closes     []string
+		sawNonPath bool
+	}
+	stacks := map[int][]*frame{}
+	groupIdx := map[int]int{}        // group canvas -> index in out of its "go" placeholder
+	groupID := map[int]int{}         // group canvas -> box id
+	groupCloses := map[int][]string{} // closes pending at depth 0 of a group canvas
+	lastFill := map[int][3]int{}
+	lastID := 0
+	top := func(c int) *frame {
+		if st := stacks[c]; len(st) > 0 {
+			return st[len(st)-1]
+		}
+		return nil
+	}
+	nextOn := func(i, c int) (int, *render.Ev) {
+		for j := i + 1; j < len(rec.Events); j++ {
+			if rec.Events[j].Canvas == c {
+				return j, &rec.Events[j]
+			}
+		}
+		return -1, nil
+	}
+	paint := func(c, id int, layer string) {
+		if layer == "bg" {
+			if _, isGroup := groupIdx[c]; isGroup {
+				if _, known := groupID[c]; !known {
+					groupID[c] = id
+					out[groupIdx[c]] = fmt.Sprintf("(%d go)", id)
+				}
+			}
+		}
+		ev := fmt.Sprintf("(%d %s)", id, layer)
+		if layer == "ol" && len(out) > 0 && out[len(out)-1] == ev {
+			return
+		}
+		out = append(out, ev)
+		lastID = id
+	}
+	for i, e := range rec.Events {
+		c := e.Canvas
+		isPath := e.Op == "Rectangle" || e.Op == "MoveTo" || e.Op == "LineTo" || e.Op == "CubicTo" || e.Op == "ClosePath"
 		switch e.Op {
+		case "Save":
+			if f := top(c); f != nil {
+				f.sawNonPath = true
+			}
+			stacks[c] = append(stacks[c], &frame{})
+			continue
+		case "Restore":
+			if st := stacks[c]; len(st) > 0 {
+				f := st[len(st)-1]
+				stacks[c] = st[:len(st)-1]
+				for k := len(f.closes) - 1; k >= 0; k-- {
+					out = append(out, f.closes[k])
+				}
+			}
+			continue
+		case "NewGroup":
+			groupIdx[e.Ref] = len(out)
+			out = append(out, "(? go)")
+		case "DrawWithOpacity":
+			cl := groupCloses[e.Ref]
+			for k := len(cl) - 1; k >= 0; k-- {
+				out = append(out, cl[k])
+			}
+			out = append(out, fmt.Sprintf("(%d gc)", groupID[e.Ref]))
+		case "Transform":
+			if len(e.F) == 6 && e.F[0] == 1 && e.F[1] == 0 && e.F[2] == 0 && e.F[3] == 1 && math.Abs(e.F[5]) < 0.01 &&
+				e.F[4] > 100.5 && math.Abs(e.F[4]-math.Round(e.F[4])) < 0.01 {
+				id := int(math.Round(e.F[4])) - 100
+				out = append(out, fmt.Sprintf("(%d to)", id))
+				if f := top(c); f != nil {
+					f.closes = append(f.closes, fmt.Sprintf("(%d tc)", id))
+				} else {
+					groupCloses[c] = append(groupCloses[c], fmt.Sprintf("(%d tc)", id))
+				}
+			}
+		case "Clip":
+			if f := top(c); e.S == "nonzero" && f != nil && !f.sawNonPath {
+				j, n1 := nextOn(i, c)
+				bgClip := false
+				if n1 != nil && n1.Op == "Save" {
+					if _, n2 := nextOn(j, c); n2 != nil && n2.Op == "SetColorRgba" {
+						bgClip = true
+					}
+				}
+				if !bgClip {
+					out = append(out, fmt.Sprintf("(%d co)", lastID))
+					f.closes = append(f.closes, fmt.Sprintf("(%d cc)", lastID))
+				}
+			}
 		case "SetColorRgba":
 			if e.S == "fill" && len(e.F) == 4 {
-				last = [3]int{int(math.Round(e.F[0] * 255)), int(math.Round(e.F[1] * 255)), int(math.Round(e.F[2] * 255))}
+				lastFill[c] = [3]int{int(math.Round(e.F[0] * 255)), int(math.Round(e.F[1] * 255)), int(math.Round(e.F[2] * 255))}
 			}
 		case "Paint":
 			if strings.Contains(e.S, "fill") {
-				if last[1] == 0x64 && last[2] == 0xc8 {
-					out = append(out, fmt.Sprintf("(%d bg)", last[0]))
-				} else if last[1] == 0xc8 && last[2] == 0x64 {
-					out = append(out, fmt.Sprintf("(%d bd)", last[0]))
+				l := lastFill[c]
+				switch {
+				case l[1] == 0x64 && l[2] == 0xc8:
+					paint(c, l[0], "bg")
+				case l[1] == 0xc8 && l[2] == 0x64:
+					paint(c, l[0], "bd")
+				case l[1] == 0x32 && l[2] == 0xfa:
+					paint(c, l[0], "ol")
 				}
 			}
 		case "DrawText":
-			s := strings.TrimSpace(e.S)
 			var id int
-			if _, err := fmt.Sscanf(s, "t%d", &id); err == nil {
-				out = append(out, fmt.Sprintf("(%d tx)", id))
+			if _, err := fmt.Sscanf(strings.TrimSpace(e.S), "t%d", &id); err == nil {
+				paint(c, id, "tx")
+			}
+		}
+		if !isPath {
+			if f := top(c); f != nil {
+				f.sawNonPath = true
 			}
 		}
 	}
@@ -195,15 +347,35 @@ func implOrder(rec *render.Rec) []string {
 }
 
 // keep only the events the implementation can show for generated boxes (no outline, no anonymous box)
-func filterEvs(x sx.X) []string {
+func filterEvs(x sx.X, outlined map[string]bool) []string {
 	var out []string
 	for _, e := range x.Xs {
-		if e.Xs[0].S == "0" || e.Xs[1].S == "ol" {
+		if e.Xs[0].S == "0" || (e.Xs[1].S == "ol" && !outlined[e.Xs[0].S]) {
 			continue
 		}
 		out = append(out, e.String())
 	}
 	return out
+}
+
+// ids (as text) of the laid-out boxes that have an outline
+func outlinedBoxes(b bo.Box, acc map[string]bool) {
+	if ap, ok := b.(*layout.AbsolutePlaceholder); ok {
+		b = ap.AliasBox
+	}
+	f := b.Box()
+	if f.Element != nil && f.PseudoType == "" && f.Style.GetOutlineWidth().Value != 0 && f.Style.GetOutlineStyle() != "none" {
+		for _, a := range f.Element.Attr {
+			if a.Key == "id" && strings.HasPrefix(a.Val, "b") {
+				acc[a.Val[1:]] = true
+			}
+		}
+	}
+	if bo.ParentT.IsInstance(b) {
+		for _, c := range f.Children {
+			outlinedBoxes(c, acc)
+		}
+	}
 }
 
 // Run is the runner entry.
@@ -221,8 +393,8 @@ func Run(tier string, seed uint64, modelPath, repo string, out *res.Result) erro
 	if tier == "smoke" {
 		n = 300
 	}
-	out.Rule = "random trees of <=9 block boxes (depth<=4) x position{static,relative,absolute} x z-index{auto,-2,-1,0,1,1,2} x float x {opacity,transform,overflow}, unique background/border colours and texts; " +
-		"the order of fills and DrawText calls is compared with the Lean model of stacking.go run on the implementation's laid-out tree (corr) and with the Lean Appendix E spec (judge); corpus cases first; " +
+	out.Rule = "5/6 random trees of <=9 block boxes (depth<=4) x position{static,relative,absolute} x z-index{auto,-2,-1,0,1,1,2} x float x subsets of {opacity,transform,overflow} x outline, 1/6 wide documents of 13-40 sibling positioned contexts with tied unsorted z-index values (optionally under a common context); unique background/border/outline colours, texts and translations; " +
+		"the sequence of fills, DrawText calls and group brackets (opacity group, transform scope, overflow clip) is compared with the Lean model of stacking.go run on the implementation's laid-out tree (corr) and with the Lean Appendix E spec (judge); corpus cases first; " +
 		"non-trivial = at least one box makes a stacking context, is positioned or floats; distinct by document text"
 	render.Quiet()
 	fonts, err := render.NewFonts(repo)
@@ -252,8 +424,12 @@ func Run(tier string, seed uint64, modelPath, repo string, out *res.Result) erro
 		caseSeed := cr.Seed()
 		budget := cr.Range(1, 8)
 		root := &node{pos: "static", z: "auto"}
-		for k := cr.Range(1, 3); k > 0 && budget > 0; k-- {
-			root.children = append(root.children, genTree(cr, &budget, 1))
+		if cr.P(1, 6) {
+			root.children = genWide(cr)
+		} else {
+			for k := cr.Range(1, 3); k > 0 && budget > 0; k-- {
+				root.children = append(root.children, genTree(cr, &budget, 1))
+			}
 		}
 		next := 0
 		for _, c := range root.children {
@@ -322,20 +498,57 @@ func one(m *mp.Model, src string, caseSeed uint64, fonts text.FontConfiguration,
 	if ans.Head() != "ok" {
 		return fmt.Errorf("model: %s on %s", ans, tree)
 	}
-	impl := strings.Join(implOrder(doc.Rec), " ")
-	model := strings.Join(filterEvs(ans.Xs[1]), " ")
-	spec := strings.Join(filterEvs(ans.Xs[2]), " ")
-	key := ""
+	outlined := map[string]bool{}
+	outlinedBoxes(doc.Pages[0].Children[0], outlined)
+	implEvs := implOrder(doc.Rec)
+	impl := strings.Join(implEvs, " ")
+	model := strings.Join(filterEvs(ans.Xs[1], outlined), " ")
+	spec := strings.Join(filterEvs(ans.Xs[2], outlined), " ")
 	if model != spec {
 		// cannot happen if the driver runs the proved definitions (WR.Props.C16.paint_order_respects_E)
 		out.Add(res.Finding{Kind: "corr", Op: "corr:model-vs-spec", Input: src, Impl: model, Model: spec, Reason: "the model of stacking.go and the Appendix E spec differ on the tree " + tree.String(), Seed: caseSeed})
 	}
+	// model = spec is a theorem, so inside the modelled fragment any difference between the implementation
+	// and the model IS a violation of the property's statement
 	if impl != spec {
-		out.Add(res.Finding{Kind: "judge", Op: "judge:paint-order", Input: src, Impl: impl, Model: spec, Reason: "the order of paints differs from CSS 2.1 Appendix E; laid-out tree: " + tree.String(), Key: key, Seed: caseSeed})
+		out.Add(res.Finding{Kind: "judge", Op: "judge:paint-order", Input: src, Impl: impl, Model: spec, Reason: "the sequence of paints and groups differs from CSS 2.1 Appendix E (= the model of stacking.go); " + firstDiff(implEvs, filterEvs(ans.Xs[2], outlined)) + "; laid-out tree: " + tree.String(), Seed: caseSeed})
 	}
-	if impl != model {
-		out.Add(res.Finding{Kind: "corr", Op: "corr:paint-order", Input: src, Impl: impl, Model: model, Reason: "differs from the model of stacking.go; laid-out tree: " + tree.String(), Key: key, Seed: caseSeed})
+	// group_encloses_subtree and background < border < content < outline, evaluated on the implementation's events
+	if !strings.Contains(impl, "?") {
+		j, err := m.Ask(sx.L(sx.A("enclosure"), tree, sx.A("("+impl+")")))
+		if err != nil {
+			return err
+		}
+		if j.Head() != "ok" {
+			return fmt.Errorf("enclosure judge: %s", j)
+		}
+		if j.Xs[1].S != "1" {
+			key := ""
+			if j.Xs[2].S == "1" {
+				// the only thing outside its group is the outline of a descendant of an overflow box, painted after the clip is closed
+				key = "descendant-outline-outside-overflow-clip"
+			}
+			out.Add(res.Finding{Kind: "judge", Op: "judge:group-enclosure", Key: key, Input: src, Impl: impl, Reason: "a paint of a box's sub-tree lies outside the box's opacity group / transform scope / overflow clip, or a box's layers are out of order; laid-out tree: " + tree.String(), Seed: caseSeed})
+		}
+	} else {
+		out.Add(res.Finding{Kind: "judge", Op: "judge:group-enclosure", Input: src, Impl: impl, Reason: "an opacity group whose first paint is not the background of a box", Seed: caseSeed})
 	}
 	return nil
 }
 
+
+func firstDiff(a, b []string) string {
+	for i := 0; i < len(a) || i < len(b); i++ {
+		x, y := "<end>", "<end>"
+		if i < len(a) {
+			x = a[i]
+		}
+		if i < len(b) {
+			y = b[i]
+		}
+		if x != y {
+			return fmt.Sprintf("first difference at event %d: implementation %s, expected %s", i, x, y)
+		}
+	}
+	return "no difference"
+}
